@@ -1,7 +1,7 @@
 import Cell2v.Driver.Util
 import Cell2v.Model.Sche
 import Cell2v.Model.Waterfall
-import Cell2v.Gen.C15Consts
+import Cell2v.Model.ScheCfg
 /-!
 Model driver for C15.
 
@@ -352,6 +352,164 @@ def acceptS (s : AccS) (ws : List String) (o : SObs) : Except String AccS := do
   if s.stopped && s.started && !s.held then s := { s with gone := true }
   return s
 
+/-! ## scheduler: replay of a whole case through `Sche.fire`
+
+At the `end` op of a scheduler case the driver constructs an explicit run of the
+model (`Model/Sche.lean`, shipped configuration) — a sequence of `call / send /
+consume / stop / quit` labels — that reproduces every observation of the case:
+execution order, per-poster accepted / refused / blocked counts and the fill
+level after each op.  The channel order of closures that were accepted in one op
+is taken from the order in which they were executed later (never-executed ones
+last); every label must be enabled in the model, a blocked poster's `send` must
+be disabled.  A case is accepted only if such a run exists. -/
+
+open Cell2v.Sche (Item Label shipped)
+
+structure OpRec where
+  ws : List String
+  obs : SObs
+
+structure RP where
+  m : Sche.St := {}
+  kinds : List (Nat × List Kind) := []
+  started : Bool := false
+  held : Bool := false
+  stopped : Bool := false
+  gone : Bool := false
+
+def RP.kindOf (r : RP) (p k : Nat) : Kind :=
+  match r.kinds.find? (·.1 = p) with
+  | some (_, ks) => ks.getD k .normal
+  | none => .normal
+
+def RP.addKinds (r : RP) (p : Nat) (ks : List Kind) : RP :=
+  if r.kinds.any (·.1 = p) then { r with kinds := r.kinds.map fun e => if e.1 = p then (p, e.2 ++ ks) else e }
+  else { r with kinds := r.kinds ++ [(p, ks)] }
+
+/-- rebuild the function-valued fields from finite tables (keeps closure chains short) -/
+def normalize (ps : List Nat) (m : Sche.St) : Sche.St :=
+  let tn := ps.map fun p => (p, m.next p)
+  let to := ps.map fun p => (p, m.out p)
+  let ta := ps.map fun p => (p, m.acc p)
+  { m with
+    next := fun q => ((tn.find? (·.1 = q)).map (·.2)).getD 0
+    out := fun q => ((to.find? (·.1 = q)).map (·.2)).getD none
+    acc := fun q => ((ta.find? (·.1 = q)).map (·.2)).getD 0 }
+
+def fireE (m : Sche.St) (l : Label) (what : String) : Except String Sche.St :=
+  match Sche.fire shipped m l with
+  | some m' => .ok m'
+  | none => .error s!"model step not enabled: {what}"
+
+/-- poster `p` gets closure `k` into the channel: `call` (unless the send is already outstanding) then `send` -/
+def sendItem (r : RP) (p k : Nat) : Except String RP := do
+  let m ← if (r.m.out p).isNone then
+      (if r.m.next p ≠ k then throw s!"model: poster {p} would post closure {r.m.next p}, observation needs {k}"
+       else fireE r.m (.call p (r.kindOf p k)) s!"call {p}.{k}")
+    else pure r.m
+  match m.out p with
+  | some it =>
+    if it.seq ≠ k then throw s!"model: poster {p} has closure {it.seq} outstanding, observation needs {k}"
+    let m ← fireE m (.send p) s!"send {p}.{k} (channel holds {m.chan.length})"
+    return { r with m := m }
+  | none => throw s!"model: poster {p} has no outstanding send (overflow path?)"
+
+def replayOp (rank : Nat → Nat → Nat) (r : RP) (rec : OpRec) : Except String RP := do
+  let o := rec.obs
+  let mut r := r
+  match rec.ws.head? with
+  | some "burst" =>
+    match parseBurst rec.ws with
+    | some cmds => for (p, ks) in cmds do r := r.addKinds p ks
+    | none => throw "bad-op"
+  | some "start" => r := { r with started := true }
+  | some "release" => r := { r with held := false }
+  | some "stop" =>
+    let m ← fireE r.m .stop "stop"
+    r := { r with m := m, stopped := true }
+  | _ => throw "bad-op"
+  -- closures accepted during this op, in channel order
+  let mut todo : List (Nat × Nat × Nat) := []
+  for row in o.rows do
+    let a := r.m.acc row.p
+    if row.ok < a then throw s!"poster {row.p}: accepted count went backwards"
+    if r.stopped && row.ok ≠ a then throw s!"model: poster {row.p} cannot get a post accepted after Stop"
+    todo := todo ++ (List.range (row.ok - a)).map fun i => (rank row.p (a + i), row.p, a + i)
+  todo := todo.mergeSort fun x y => x.1 ≤ y.1
+  -- executions of this op, sending as late as possible
+  for (p, k) in o.exec do
+    let mut guard := todo.length + 1
+    while r.m.acc p ≤ k && guard > 0 do
+      guard := guard - 1
+      match todo with
+      | [] => throw s!"model: closure {p}.{k} executed but never accepted"
+      | (_, q, j) :: rest =>
+        r ← sendItem r q j
+        todo := rest
+    let m ← fireE r.m .consume s!"consume (expecting {p}.{k})"
+    match m.log with
+    | [it] =>
+      if it.poster ≠ p || it.seq ≠ k then
+        throw s!"model: head of the channel is {it.poster}.{it.seq}, implementation executed {p}.{k}"
+      r := { r with m := { m with log := [] }, held := it.kind = .hold }
+    | _ => throw "model: consume produced no log entry"
+  for (_, q, j) in todo do
+    r ← sendItem r q j
+  -- refused posts (after Stop) and blocked posters
+  for row in o.rows do
+    let p := row.p
+    let nilNow := (r.m.failed.filter (·.poster = p)).length
+    if row.nil < nilNow then throw s!"poster {p}: refused count went backwards"
+    for _ in List.range (row.nil - nilNow) do
+      let k := match r.m.out p with | some it => it.seq | none => r.m.next p
+      let before := r.m.failed.length
+      r ← sendItem r p k
+      if r.m.failed.length ≠ before + 1 then throw s!"model: post {p}.{k} is accepted, implementation refused it"
+    if row.blk = 1 then
+      if (r.m.out p).isNone then
+        let k := r.m.next p
+        let m ← fireE r.m (.call p (r.kindOf p k)) s!"call {p}.{k}"
+        r := { r with m := m }
+      if (Sche.fire shipped r.m (.send p)).isSome then
+        throw s!"poster {p} is blocked although the model's send is enabled (channel holds {r.m.chan.length} of {shipped.cap})"
+    else if (r.m.out p).isSome then throw s!"model: poster {p} has an outstanding send, implementation reports it idle"
+    if r.m.acc p ≠ row.ok then throw s!"model: poster {p} accepted {r.m.acc p}, implementation {row.ok}"
+    if r.m.next p ≠ row.ok + row.nil + row.blk then
+      throw s!"model: poster {p} made {r.m.next p} Post calls, implementation {row.ok + row.nil + row.blk}"
+  if r.m.chan.length ≠ o.fill then throw s!"model: channel holds {r.m.chan.length}, implementation {o.fill}"
+  if r.m.crashedPosters ≠ [] then throw "model: a poster crashed"
+  if r.stopped && r.started && !r.held && !r.gone then
+    let m ← fireE r.m .quit "quit"
+    r := { r with m := m, gone := true }
+  return { r with m := normalize (o.rows.map (·.p)) r.m }
+
+/-- execution rank of every closure of the case (never-executed closures come last, in posting order) -/
+def mkRank (recs : List OpRec) : Nat → Nat → Nat :=
+  let all := recs.flatMap (·.obs.exec)
+  let tbl : Array (Array Nat) := Id.run do
+    let mut t : Array (Array Nat) := #[]
+    let mut i := 0
+    for (p, _) in all do
+      while t.size ≤ p do t := t.push #[]
+      t := t.modify p (·.push i)
+      i := i + 1
+    return t
+  let n := all.length
+  fun p k => match tbl[p]? with
+    | some a => (a[k]?).getD (n + 1 + k)
+    | none => n + 1 + k
+
+def replayCase (recs : List OpRec) : Except String Unit := do
+  let rank := mkRank recs
+  let mut r : RP := {}
+  let mut i := 0
+  for rec in recs do
+    i := i + 1
+    match replayOp rank r rec with
+    | .ok r' => r := r'
+    | .error e => throw s!"op {i} ({(" ".intercalate rec.ws).take 60}): {e}"
+  return ()
+
 /-! ## driver state and the three modes -/
 
 inductive CaseKind | none | sche | wf
@@ -361,6 +519,7 @@ structure St where
   kind : CaseKind := .none
   w : WSt := {}
   a : AccS := {}
+  recs : List OpRec := []   -- scheduler case so far, newest first (replayed through the model at `end`)
   dead : Bool := false   -- after a rejection the rest of the case is not judged again
 
 def isReset (ws : List String) : Bool := ws.head? == some "reset"
@@ -381,6 +540,13 @@ def stepAccept (s : St) (line : String) : St × String :=
       else if kvNat (words obs) "cap" == some Gen.C15.queueSize && (words obs).head? == some "ok" then (s', "ok")
       else (s', s!"REJECT channel capacity differs from QueueSize={Gen.C15.queueSize}: {obs}")
     else if s.dead then (s, "ok skipped")
+    else if ws.head? == some "end" then
+      match s.kind with
+      | .sche =>
+        match replayCase s.recs.reverse with
+        | .ok _ => ({ s with recs := [] }, "ok")
+        | .error e => ({ s with dead := true }, "REJECT no run of the model reproduces this case: " ++ e)
+      | _ => (s, "ok")
     else match s.kind with
       | .wf =>
         let (w', m) := stepW s.w ws
@@ -391,7 +557,7 @@ def stepAccept (s : St) (line : String) : St × String :=
         | none => ({ s with dead := true }, "REJECT unparsable observation")
         | some o =>
           match acceptS s.a ws o with
-          | .ok a' => ({ s with a := a' }, "ok")
+          | .ok a' => ({ s with a := a', recs := ⟨ws, o⟩ :: s.recs }, "ok")
           | .error e => ({ s with dead := true }, "REJECT " ++ e)
       | .none => (s, "REJECT op before reset")
   | _ => (s, "REJECT bad-line")
@@ -399,6 +565,7 @@ def stepAccept (s : St) (line : String) : St × String :=
 def stepModel (s : St) (line : String) : St × String :=
   let ws := words line
   if isReset ws then (resetSt ws, s!"ok cap={Gen.C15.queueSize}")
+  else if ws.head? == some "end" then (s, "ok")
   else match s.kind with
     | .wf => let (w', m) := stepW s.w ws; ({ s with w := w' }, m)
     | _ => (s, "?")
@@ -620,7 +787,7 @@ def stepSpec (s : SpecS) (line : String) : SpecS × String :=
       (s, viol "process-crashed" (op ++ " " ++ obs))
     else if isReset ws then
       ({ kind := (resetSt ws).kind }, "ok")
-    else if s.dead then (s, "ok")
+    else if s.dead || ws.head? == some "end" then (s, "ok")
     else if (obs.splitOn "<no-observation").length > 1 then
       ({ s with dead := true }, viol "process-crashed" op)
     else
